@@ -294,5 +294,44 @@ def paragraph_element_fn(text):
             "       _ => final(p).evals == old(p).evals && res is Err }),\n{\n" + b + "\n}\n")
 
 
+COMMENT_SPEC = """
+// the inline expressions of a paragraph, in document order
+pub open spec fn inline_exprs(els: Seq<ParagraphElement>) -> Seq<Expression> decreases els.len() {
+  if els.len() == 0 { Seq::empty() } else {
+    match els.last() { ParagraphElement::EvalInlineMechCode(e) => inline_exprs(els.drop_last()).push(e), _ => inline_exprs(els.drop_last()) }
+  }
+}
+"""
+
+
+def comment_fn(text):
+    """`comment` (whole body), verified against the contract PROVED for `paragraph_element` in the same file: `for el in par.elements.iter()` -> index `while` (the body uses
+    `continue`), `paragraph_element(&el, p)` -> `paragraph_element(el, p)`, `p.out_values.borrow_mut().insert(k, v.clone())` -> `p.out_values_insert(k, v)`, `MResult` -> `Result<_, MechError>`"""
+    sig, body = extract_fn(text, "comment")
+    b = re.sub(r"//[^\n]*", "", body[body.index("{") + 1:body.rindex("}")]).replace("\r", "")
+    b = vC16.apply_cfg(b, _features())
+    b, n1 = re.subn(r"for\s+(\w+)\s+in\s+(\w+)\.elements\.iter\(\)\s*\{",
+                    lambda m: ("let mut i_: usize = 0;\n  while i_ < %s.elements.len()\n"
+                               "    invariant i_ <= %s.elements@.len(), %s.elements@ == cmmt.paragraph.elements@, p.vars == old(p).vars, p.evals@ == old(p).evals@ + inline_exprs(%s.elements@.subrange(0, i_ as int)),\n"
+                               "    decreases %s.elements@.len() - i_,\n  {\n    let %s = &%s.elements[i_]; i_ += 1;\n"
+                               "    proof { assert(%s.elements@.subrange(0, i_ as int).drop_last() =~= %s.elements@.subrange(0, i_ - 1)); }"
+                               % (m.group(2), m.group(2), m.group(2), m.group(2), m.group(2), m.group(1), m.group(2), m.group(2), m.group(2))), b)
+    b = re.sub(r"(Ok\(\s*Value::Empty\s*\)\s*)$", r"proof { assert(cmmt.paragraph.elements@.subrange(0, cmmt.paragraph.elements@.len() as int) =~= cmmt.paragraph.elements@); }\n  \1", b.rstrip())
+    b = re.sub(r"paragraph_element\(\s*&(\w+)\s*,", r"paragraph_element(\1,", b)
+    b = re.sub(r"\b(\w+)\.out_values\.borrow_mut\(\)\.insert\(\s*(\w+)\s*,\s*(\w+)\.clone\(\)\s*\)", r"\1.out_values_insert(\2, \3)", b)
+    if n1 != 1 or re.search(r"\b(borrow_mut|iter)\b", b):
+        raise AnchorLost("comment: the element loop is outside the transcription rules")
+    return (COMMENT_SPEC +
+            "fn comment(cmmt: &Comment, p: &mut Interpreter) -> (res: Result<Value, MechError>)\n"
+            "  ensures final(p).vars == old(p).vars,          // a comment writes no variable\n"
+            "    res is Ok,                                      // and never fails (a failing inline expression is skipped)\n"
+            "    final(p).evals@ == old(p).evals@ + inline_exprs(cmmt.paragraph.elements@),   // it evaluates its inline expressions, each once, in order, and nothing else\n{\n"
+            + b + "\n}\n")
+
+
 def prose_unit(text):
     return "use vstd::prelude::*;\nverus! {\n" + PROSE_MODEL + paragraph_element_fn(text) + vlib.verus_canary("canary_c10_prose", "x: u64", []) + "\n} // verus!\nfn main() {}\n"
+
+
+def comment_unit(text):
+    return "use vstd::prelude::*;\nverus! {\n" + PROSE_MODEL + paragraph_element_fn(text) + comment_fn(text) + vlib.verus_canary("canary_c10_comment", "x: u64", []) + "\n} // verus!\nfn main() {}\n"
